@@ -402,9 +402,17 @@ func pyramids(rng *rand.Rand, h honest) []pyr {
 			add(fmt.Sprintf("%s-entry-truncated-%s", target, bucket(cut, len(v))), m)
 		}
 		{
+			// zero bytes appended inside the BMT capacity do not change the hash. For an
+			// intermediate chunk the extension is one whole (zero) reference: reference data
+			// that is not a multiple of the reference size makes the joiner panic, which is
+			// C37's subject, not this property's.
+			ext := 1
+			if binary.LittleEndian.Uint64(v[:8]) > uint64(len(v)-8) {
+				ext = 32
+			}
 			m := clone(h.pyramid)
-			m[k] = pbench.Cat(v, []byte{0})
-			add(target+"-entry-extended-one-zero-byte", m)
+			m[k] = pbench.Cat(v, make([]byte, ext))
+			add(fmt.Sprintf("%s-entry-extended-%d-zero-bytes", target, ext), m)
 			m2 := clone(h.pyramid)
 			m2[k] = pbench.Cat(v, []byte{1})
 			add(target+"-entry-extended-one-nonzero-byte", m2)
